@@ -32,6 +32,8 @@ CLAIMS = {
          "A replicated process (1-11 replicas, 98-101 occasionally in the thorough tier; forever-running, finite or restarting commands) receives 1-5 successive scale requests - up, down, across the 9/10 and 99/100 width boundaries, to the current value, n<1, unknown and stale names - or two requests at the same instant. After each, exactly the expected names must be listed (and equal a fresh load's), every replica must report its own number, rendered command, PC_REPLICA_NUM, state (pid of its own command) and log lines; survivors must not have been signalled or relaunched, removed ones must be dead and gone, added ones launched once, other processes untouched, invalid requests must fail without side effects; concurrent requests must leave the outcome of one of the two orders."),
  "C14": ("exploration", "3.C14", "seeded pairs and chains of configurations applied with UpdateProject to a running project on the simulated kernel; returned status map, listed processes, reported configuration and the simulated process table (kept / signalled / relaunched commands and the arguments, environment and directory they were launched with) compared with the new configuration",
          "Projects of 1-5 processes receive 1-3 successive updates that remove, add, change (command, environment, working directory, restart policy, back-off, readiness probe, disabled flag) or keep each process, or are identical to the current configuration. The status map must name exactly the added, removed and updated processes; afterwards exactly the new set is listed, unchanged processes kept their command (not signalled, not relaunched), changed ones had the old command terminated and run one launched with the new configuration, removed ones are dead and gone, new ones launched. Replica-count changes through an update and description-only changes are not generated: see DESIGN.md."),
+ "C06": ("exploration", "3.C06", "seeded process trees on the simulated kernel (process groups, children and grandchildren, members ignoring the stop signal, slow deaths) x shutdown parameters (signal incl. out-of-range values, parent_only, time-out, shutdown command that succeeds / fails / lies / hangs) x stop, restart and shutdown requests at seeded instants, the shutdown also requested by SIGTERM/SIGINT/SIGHUP delivered to the binary's own handler (src/cmd runHeadless run in simulation); every kill(2) issued is compared with the configuration on the fake clock, the process table is inspected after Run() returned",
+         "Every signal the code under test sends goes through the simulated kill(2): the first one must be the configured signal (SIGTERM for out-of-range values), aimed at the process group (the pid with parent_only); SIGKILL follows exactly when the command is still alive shutdown.timeout_seconds later, never earlier and never without a time-out; a shutdown command must run with the process's environment and working directory and SIGKILL follows it only when it fails or times out; after a project shutdown - requested through the API or by a signal to the binary - no member of any managed command's group that was owed a signal is alive. Real OS processes are not used: the kernel is the simulated one (DESIGN.md 2.3)."),
  "C11": ("exploration", "3.C11", "seeded simulated runs with scripted output on both streams (chunk splitting, partial last lines, bursts, read errors, restarts); every byte written to the simulated pipes is compared with the log buffer and the log file at the end",
          "What a process wrote to the simulated pipes is ground truth: every complete line must reach the in-memory log and the log file once, in per-stream order, whole (never split or merged across chunk boundaries) and attributed to the right process, across restarts and read errors."),
  "C18": ("exploration", "3.C18", "seeded concurrent writers/readers/subscribers of the log buffer under the cooperative scheduler; porcupine linearizability against a sequential ring model; follower oracle (no loss, duplication or reordering after subscription)",
